@@ -344,7 +344,7 @@ def run_plain_client(case: dict) -> CaseResult:
             if not b & 0x80:
                 complete = True
                 break
-        if not complete or val == 0:
+        if not complete or val in (0, 1):  # (81 00 is a padded ONE: read as the other framing's indicator)
             res.classes = ["framing", "plain_client", "indicator_varint_without_verdict"]
             res.info = {"first": first, "error": type(err).__name__}
             return res
